@@ -1,19 +1,35 @@
 import Tea.Proofs.Inline
 /-
-Printed (queued) lines: `.text line` longer than the width wraps; the operations
-`queuedLineOps` of one queued line fill `⌈len/w⌉` rows (one row for an empty
-line) and leave the cursor at the start of the next row.
+Printed (queued) lines: `.text line` whose visible part is longer than the width wraps;
+the operations `queuedLineOps` of one queued line fill `⌈cells/w⌉` rows (one row for a
+line without printing bytes) and leave the cursor at the start of the next row.  What the
+terminal does with a queued line only depends on its visible part (`queuedLineOps_visible`),
+so the wrapping argument is carried out on plain byte strings (`_plain` lemmas: no ESC byte,
+where `Ansi.visible` is the identity and `Ansi.truncate` is `take`) and then transferred to
+every line through `Ansi.visible`.
 -/
 namespace Tea.Render
 open Tea Tea.VT
 
-/-- the number of rows a printed line of `len` bytes takes on a `w`-column terminal -/
+/-- the number of rows a printed line of `len` cells takes on a `w`-column terminal -/
 def rowsOf (w len : Nat) : Nat := (len - 1) / w + 1
 
-/-- the rows a printed line takes: its successive `w`-byte pieces (as suffixes of the line; a row
-shows the first `w` bytes of its suffix) -/
+/-- the rows a printed line takes: the successive `w`-cell pieces of its visible part (as suffixes
+of the visible part; a row shows the first `w` bytes of its suffix) -/
 def chunksOf (w : Nat) (line : Line) : List Line :=
-  (List.range (rowsOf w line.length)).map (fun j => line.drop (j * w))
+  (List.range (rowsOf w (lineWidth line))).map (fun j => (Ansi.visible line).drop (j * w))
+
+/-- plain text: no ESC byte -/
+def Plain (l : Line) : Prop := ∀ x ∈ l, x ≠ 0x1b
+
+theorem Plain.take {l : Line} (h : Plain l) (n : Nat) : Plain (l.take n) :=
+  fun x hx => h x (List.mem_of_mem_take hx)
+theorem Plain.drop {l : Line} (h : Plain l) (n : Nat) : Plain (l.drop n) :=
+  fun x hx => h x (List.mem_of_mem_drop hx)
+theorem Plain.visible {l : Line} (h : Plain l) : Ansi.visible l = l := Ansi.visible_of_plain h
+theorem Plain.width {l : Line} (h : Plain l) : lineWidth l = l.length := Ansi.width_of_plain h
+theorem Plain.awidth {l : Line} (h : Plain l) : Ansi.width l = l.length := Ansi.width_of_plain h
+theorem plain_visible (l : Line) : Plain (Ansi.visible l) := Ansi.visibleFrom_no_esc .ground l
 
 theorem rowsOf_le (w len : Nat) (hw : 1 ≤ w) (h : len ≤ w) : rowsOf w len = 1 := by
   unfold rowsOf
@@ -24,21 +40,26 @@ theorem rowsOf_gt (w len : Nat) (hw : 1 ≤ w) (h : w < len) : rowsOf w len = ro
   have : len - 1 = (len - w - 1) + w := by omega
   rw [this, Nat.add_div_right _ (by omega)]
 
-/-- paint one row with the first `w` bytes of `line`, then CR LF -/
+/-- paint one row with `line` cut at `w` cells, then CR LF: the row shows the visible part of
+`line` (any byte string) -/
 theorem lineRow_step (w h : Nat) (b : Buf) (line : Line) (hw1 : 1 ≤ w)
     (hc : b.cc = 0) (hp : b.pw = false) :
-    ∀ b1, b1 = applyBufs w h (applyBufs w h b (lineOps w (line.take w))) [.cr, .lf] →
+    ∀ b1, b1 = applyBufs w h (applyBufs w h b (lineOps w (truncateLine w line))) [.cr, .lf] →
     b1.cr = b.cr + 1 ∧ b1.cc = 0 ∧ b1.pw = false ∧
     b1.top = (if b.cr + 1 = b.top + h then b.top + 1 else b.top) ∧
-    (∀ ρ, ρ ≠ b.cr → ∀ c, b1.cells ρ c = b.cells ρ c) ∧ rowShows w b1 b.cr line := by
+    (∀ ρ, ρ ≠ b.cr → ∀ c, b1.cells ρ c = b.cells ρ c) ∧ rowShows w b1 b.cr (Ansi.visible line) := by
   intro b1 hb1
-  obtain ⟨p1, p2, _, p4, p5⟩ := lineOps_spec w h b (line.take w) hw1
-    (by simp [List.length_take]; omega) hc hp
+  obtain ⟨p1, p2, _, p4, p5⟩ := lineOps_spec w h b (truncateLine w line) hw1
+    (truncateLine_width_le w line) hc hp
   subst hb1
   simp only [applyBufs_cons, applyBufs_nil, applyBuf_lf_cr, applyBuf_lf_cc, applyBuf_lf_pw,
     applyBuf_lf_top, applyBuf_lf_cells, applyBuf_cr_cr, applyBuf_cr_cc, applyBuf_cr_top,
     applyBuf_cr_cells, p1, p2, true_and]
-  exact ⟨p4, rowShows_congr (fun c => by simp) ((rowShows_take w _ b.cr line).1 p5)⟩
+  rw [visible_truncateLine] at p5
+  exact ⟨p4, rowShows_congr (fun c => by simp) ((rowShows_take w _ b.cr (Ansi.visible line)).1 p5)⟩
+
+theorem truncateLine_plain (w : Nat) {line : Line} (h : Plain line) :
+    truncateLine w line = line.take w := Ansi.truncate_of_plain w h
 
 theorem putChar_wrap (w h : Nat) (b : Buf) (ch : Nat) (hp : b.pw = true) :
     putChar w h b ch = putChar w h (applyBuf w h (applyBuf w h b .cr) .lf) ch := by
@@ -48,53 +69,72 @@ theorem putChar_wrap (w h : Nat) (b : Buf) (ch : Nat) (hp : b.pw = true) :
   simp only [hp, if_true, Bool.false_eq_true, if_false, e2]
 
 /-- a queued line that fits in one row: its operations are `lineOps` then CR LF -/
-theorem queuedLineOps_fit (w : Nat) (line : Line) (hw1 : 1 ≤ w) (h : line.length ≤ w) :
-    queuedLineOps w line = lineOps w (line.take w) ++ [.cr, .lf] := by
-  have ht : line.take w = line := List.take_of_length_le h
+theorem queuedLineOps_fit (w : Nat) (line : Line) (hw1 : 1 ≤ w) (h : lineWidth line ≤ w) :
+    queuedLineOps w line = lineOps w (truncateLine w line) ++ [.cr, .lf] := by
+  have ht : truncateLine w line = line := Ansi.truncate_of_width_le h
   rw [ht]
-  unfold queuedLineOps lineOps lineWidth
-  by_cases hl : line.length < w
-  · have : (line.length == 0 || line.length % w != 0) = true := by
+  unfold queuedLineOps lineOps
+  show _ = [TermOp.text line] ++ (if lineWidth line < w then [TermOp.el0] else []) ++ _
+  generalize lineWidth line = n at *
+  by_cases hl : n < w
+  · have : (n == 0 || n % w != 0) = true := by
       rw [Nat.mod_eq_of_lt hl]
-      cases hz : line.length <;> simp
+      cases hz : n <;> simp
     have hwp : 0 < w := by omega
     simp [hl, this, hwp]
-  · have hlw : line.length = w := by omega
-    have : (line.length == 0 || line.length % w != 0) = false := by
+  · have hlw : n = w := by omega
+    have : (n == 0 || n % w != 0) = false := by
       rw [hlw, Nat.mod_self]; simp; omega
     have hwp : 0 < w := by omega
     simp [hl, this, hwp]
 
-theorem applyBuf_text_append (w h : Nat) (b : Buf) (s1 s2 : Bytes) :
-    applyBuf w h b (.text (s1 ++ s2)) = applyBuf w h (applyBuf w h b (.text s1)) (.text s2) := by
-  simp only [applyBuf, List.foldl_append]
+/-- what `.text` does to a buffer only depends on the visible part of the text -/
+theorem applyBuf_text_visible (w h : Nat) (b : Buf) (s : Bytes) :
+    applyBuf w h b (.text (Ansi.visible s)) = applyBuf w h b (.text s) := by
+  simp only [applyBuf, Ansi.visible_visible]
 
-theorem applyBuf_text_cons_wrap (w h : Nat) (b : Buf) (x : Nat) (s : Bytes) (hp : b.pw = true) :
+theorem applyBuf_text_plain (w h : Nat) (b : Buf) {s : Bytes} (hs : Plain s) :
+    applyBuf w h b (.text s) = s.foldl (putChar w h) b := by
+  simp only [applyBuf, hs.visible]
+
+theorem applyBuf_text_append (w h : Nat) (b : Buf) {s1 s2 : Bytes} (h1 : Plain s1) (h2 : Plain s2) :
+    applyBuf w h b (.text (s1 ++ s2)) = applyBuf w h (applyBuf w h b (.text s1)) (.text s2) := by
+  have h12 : Plain (s1 ++ s2) := by
+    intro x hx
+    rcases List.mem_append.1 hx with hx | hx
+    · exact h1 x hx
+    · exact h2 x hx
+  rw [applyBuf_text_plain w h b h12, applyBuf_text_plain w h b h1, applyBuf_text_plain w h _ h2,
+    List.foldl_append]
+
+theorem applyBuf_text_cons_wrap (w h : Nat) (b : Buf) (x : Nat) (s : Bytes) (hs : Plain (x :: s))
+    (hp : b.pw = true) :
     applyBuf w h b (.text (x :: s)) =
       applyBuf w h (applyBuf w h (applyBuf w h b .cr) .lf) (.text (x :: s)) := by
-  show List.foldl _ _ _ = List.foldl _ _ _
+  rw [applyBuf_text_plain w h b hs, applyBuf_text_plain w h _ hs]
   rw [List.foldl_cons, List.foldl_cons, putChar_wrap w h b x hp]
 
-/-- a queued line longer than a row: the first `w` bytes fill the row, the next byte wraps, and
-the rest behaves like a queued line of its own -/
-theorem queuedLineOps_wrap (w h : Nat) (b : Buf) (line : Line) (hw1 : 1 ≤ w) (hl : w < line.length)
-    (hc : b.cc = 0) (hp : b.pw = false) :
+/-- a plain queued line longer than a row: the first `w` bytes fill the row, the next byte wraps,
+and the rest behaves like a queued line of its own -/
+theorem queuedLineOps_wrap_plain (w h : Nat) (b : Buf) (line : Line) (hpl : Plain line) (hw1 : 1 ≤ w)
+    (hl : w < line.length) (hc : b.cc = 0) (hp : b.pw = false) :
     applyBufs w h b (queuedLineOps w line) =
       applyBufs w h (applyBufs w h (applyBufs w h b (lineOps w (line.take w))) [.cr, .lf])
         (queuedLineOps w (line.drop w)) := by
   have hlen : (line.take w).length = w := by simp [List.length_take]; omega
-  have hlo : lineOps w (line.take w) = [.text (line.take w)] := by simp [lineOps, hlen]
-  obtain ⟨_, _, t3, t4, _⟩ := applyBuf_text w h b (line.take w) (by rw [hc, hlen]; omega) (by rw [hc]; omega) hp
-  rw [hc, hlen] at t4
+  have hwt : Ansi.width (line.take w) = w := by rw [(hpl.take w).awidth, hlen]
+  have hlo : lineOps w (line.take w) = [.text (line.take w)] := by simp [lineOps, hwt]
+  obtain ⟨_, _, t3, t4, _⟩ := applyBuf_text w h b (line.take w) (by rw [hc, hwt]; omega) (by rw [hc]; omega) hp
+  rw [hc, hwt] at t4
   obtain ⟨_, e2⟩ := colOK_vcol_eq t3 (by simpa using t4)
   have hel : (decide (w > 0) && (lineWidth line == 0 || lineWidth line % w != 0)) =
       (decide (w > 0) && (lineWidth (line.drop w) == 0 || lineWidth (line.drop w) % w != 0)) := by
     have h1 : (lineWidth line == 0) = false := by
-      rw [beq_eq_false_iff_ne]; unfold lineWidth; omega
+      rw [beq_eq_false_iff_ne, hpl.width]; omega
     have h2 : (lineWidth (line.drop w) == 0) = false := by
-      rw [beq_eq_false_iff_ne]; unfold lineWidth; rw [List.length_drop]; omega
+      rw [beq_eq_false_iff_ne, (hpl.drop w).width, List.length_drop]; omega
     have h3 : lineWidth line % w = lineWidth (line.drop w) % w := by
-      simp only [lineWidth, List.length_drop]
+      rw [hpl.width, (hpl.drop w).width, List.length_drop]
       have : line.length = (line.length - w) + w := by omega
       rw [this, Nat.add_mod_right]
       simp
@@ -110,7 +150,9 @@ theorem queuedLineOps_wrap (w h : Nat) (b : Buf) (line : Line) (hw1 : 1 ≤ w) (
       calc applyBuf w h b (.text line)
           = applyBuf w h b (.text (line.take w ++ (x :: rest))) := by rw [← hsplit]
         _ = _ := by
-          rw [applyBuf_text_append, applyBuf_text_cons_wrap w h _ x rest e2]
+          have hxr : Plain (x :: rest) := hd ▸ hpl.drop w
+          rw [applyBuf_text_append w h b (hpl.take w) hxr,
+            applyBuf_text_cons_wrap w h _ x rest hxr e2]
     rw [hd] at hel
     unfold queuedLineOps
     rw [← hel, hlo]
@@ -119,12 +161,12 @@ theorem queuedLineOps_wrap (w h : Nat) (b : Buf) (line : Line) (hw1 : 1 ≤ w) (
 
 theorem rowsOf_pos (w len : Nat) : 1 ≤ rowsOf w len := by unfold rowsOf; exact Nat.le_add_left 1 _
 
-/-- One queued (printed) line, from the start of a row inside the window: it fills
+/-- One plain queued (printed) line, from the start of a row inside the window: it fills
 `rowsOf w len` rows — row `j` shows the line from byte `j*w` on (its first `w` bytes, blank
 padded) —, the cursor ends at the start of the next row, the window scrolls by exactly what is
 needed, no other row changes. -/
-theorem queuedLine_spec (w h : Nat) (hw1 : 1 ≤ w) : ∀ (fuel : Nat) (line : Line) (b : Buf),
-    line.length ≤ fuel → b.cc = 0 → b.pw = false → b.cr < b.top + h →
+theorem queuedLine_spec_plain (w h : Nat) (hw1 : 1 ≤ w) : ∀ (fuel : Nat) (line : Line) (b : Buf),
+    Plain line → line.length ≤ fuel → b.cc = 0 → b.pw = false → b.cr < b.top + h →
     ∀ b', b' = applyBufs w h b (queuedLineOps w line) →
     b'.cr = b.cr + rowsOf w line.length ∧ b'.cc = 0 ∧ b'.pw = false ∧
     b'.top = max b.top (b.cr + rowsOf w line.length + 1 - h) ∧
@@ -134,9 +176,9 @@ theorem queuedLine_spec (w h : Nat) (hw1 : 1 ≤ w) : ∀ (fuel : Nat) (line : L
   intro fuel
   induction fuel with
   | zero =>
-    intro line b hf hc hp hwin b' hb'
+    intro line b hpl hf hc hp hwin b' hb'
     have hfit : line.length ≤ w := by omega
-    rw [queuedLineOps_fit w line hw1 hfit, applyBufs_append] at hb'
+    rw [queuedLineOps_fit w line hw1 (by rw [hpl.width]; exact hfit), applyBufs_append] at hb'
     obtain ⟨q1, q2, q3, q4, q5, q6⟩ := lineRow_step w h b line hw1 hc hp b' hb'
     rw [rowsOf_le w _ hw1 hfit]
     refine ⟨q1, q2, q3, by rw [q4]; split <;> omega, ?_, fun ρ hρ c => q5 ρ (by omega) c,
@@ -144,11 +186,11 @@ theorem queuedLine_spec (w h : Nat) (hw1 : 1 ≤ w) : ∀ (fuel : Nat) (line : L
     intro j hj
     have : j = 0 := by omega
     subst this
-    simpa using q6
+    simpa [hpl.visible] using q6
   | succ fuel ih =>
-    intro line b hf hc hp hwin b' hb'
+    intro line b hpl hf hc hp hwin b' hb'
     by_cases hfit : line.length ≤ w
-    · rw [queuedLineOps_fit w line hw1 hfit, applyBufs_append] at hb'
+    · rw [queuedLineOps_fit w line hw1 (by rw [hpl.width]; exact hfit), applyBufs_append] at hb'
       obtain ⟨q1, q2, q3, q4, q5, q6⟩ := lineRow_step w h b line hw1 hc hp b' hb'
       rw [rowsOf_le w _ hw1 hfit]
       refine ⟨q1, q2, q3, by rw [q4]; split <;> omega, ?_, fun ρ hρ c => q5 ρ (by omega) c,
@@ -156,14 +198,15 @@ theorem queuedLine_spec (w h : Nat) (hw1 : 1 ≤ w) : ∀ (fuel : Nat) (line : L
       intro j hj
       have : j = 0 := by omega
       subst this
-      simpa using q6
+      simpa [hpl.visible] using q6
     · have hl : w < line.length := by omega
-      rw [queuedLineOps_wrap w h b line hw1 hl hc hp] at hb'
+      rw [queuedLineOps_wrap_plain w h b line hpl hw1 hl hc hp] at hb'
       obtain ⟨q1, q2, q3, q4, q5, q6⟩ := lineRow_step w h b line hw1 hc hp _ rfl
+      rw [truncateLine_plain w hpl, hpl.visible] at *
       generalize applyBufs w h (applyBufs w h b (lineOps w (line.take w))) [.cr, .lf] = b1 at *
       have hwin1 : b1.cr < b1.top + h := by rw [q1, q4]; split <;> omega
       have hdl : (line.drop w).length = line.length - w := List.length_drop
-      obtain ⟨s1, s2, s3, s4, s5, s6, s7⟩ := ih (line.drop w) b1 (by rw [hdl]; omega) q2 q3 hwin1 b' hb'
+      obtain ⟨s1, s2, s3, s4, s5, s6, s7⟩ := ih (line.drop w) b1 (hpl.drop w) (by rw [hdl]; omega) q2 q3 hwin1 b' hb'
       rw [hdl] at s1 s4 s5 s7
       have hm := rowsOf_gt w line.length hw1 hl
       have hm1 := rowsOf_pos w (line.length - w)
@@ -173,7 +216,7 @@ theorem queuedLine_spec (w h : Nat) (hw1 : 1 ≤ w) : ∀ (fuel : Nat) (line : L
         cases j with
         | zero =>
           refine rowShows_congr (fun c => s6 _ (by omega) c) ?_
-          simpa using q6
+          simpa [hpl.visible] using q6
         | succ j =>
           have := s5 j (by omega)
           rw [List.drop_drop, q1] at this
@@ -186,14 +229,42 @@ theorem queuedLine_spec (w h : Nat) (hw1 : 1 ≤ w) : ∀ (fuel : Nat) (line : L
       · intro ρ hρ c
         rw [s7 ρ (by omega) c, q5 ρ (by omega) c]
 
+/-- the operations of a queued line act on a buffer as those of its visible part do -/
+theorem queuedLineOps_visible (w h : Nat) (b : Buf) (line : Line) :
+    applyBufs w h b (queuedLineOps w line) = applyBufs w h b (queuedLineOps w (Ansi.visible line)) := by
+  have hwid : lineWidth (Ansi.visible line) = lineWidth line := by
+    unfold lineWidth Ansi.width
+    rw [Ansi.visible_visible]
+  unfold queuedLineOps
+  rw [hwid]
+  simp only [List.cons_append, List.nil_append, applyBufs_cons, applyBuf_text_visible]
+
+/-- One queued (printed) line, any byte string, from the start of a row inside the window: it
+fills `rowsOf w (lineWidth line)` rows — row `j` shows the visible part of the line from visible
+byte `j*w` on (its first `w` bytes, blank padded) —, the cursor ends at the start of the next row,
+the window scrolls by exactly what is needed, no other row changes. -/
+theorem queuedLine_spec (w h : Nat) (hw1 : 1 ≤ w) (line : Line) (b : Buf) :
+    b.cc = 0 → b.pw = false → b.cr < b.top + h →
+    ∀ b', b' = applyBufs w h b (queuedLineOps w line) →
+    b'.cr = b.cr + rowsOf w (lineWidth line) ∧ b'.cc = 0 ∧ b'.pw = false ∧
+    b'.top = max b.top (b.cr + rowsOf w (lineWidth line) + 1 - h) ∧
+    (∀ j, j < rowsOf w (lineWidth line) → rowShows w b' (b.cr + j) ((Ansi.visible line).drop (j * w))) ∧
+    (∀ ρ, ρ < b.cr → ∀ c, b'.cells ρ c = b.cells ρ c) ∧
+    (∀ ρ, b.cr + rowsOf w (lineWidth line) ≤ ρ → ∀ c, b'.cells ρ c = b.cells ρ c) := by
+  intro hc hp hwin b' hb'
+  rw [queuedLineOps_visible] at hb'
+  exact queuedLine_spec_plain w h hw1 _ (Ansi.visible line) b (plain_visible line) (Nat.le_refl _)
+    hc hp hwin b' hb'
+
 /-- the rows that a list of printed lines takes, in order -/
 def qrows (w : Nat) (qs : List Line) : List Line := qs.flatMap (chunksOf w)
 
-theorem chunksOf_length (w : Nat) (line : Line) : (chunksOf w line).length = rowsOf w line.length := by
+theorem chunksOf_length (w : Nat) (line : Line) : (chunksOf w line).length = rowsOf w (lineWidth line) := by
   simp [chunksOf]
 
 theorem chunksOf_getElem? (w : Nat) (line : Line) (j : Nat) (l : Line)
-    (h : (chunksOf w line)[j]? = some l) : j < rowsOf w line.length ∧ l = line.drop (j * w) := by
+    (h : (chunksOf w line)[j]? = some l) :
+    j < rowsOf w (lineWidth line) ∧ l = (Ansi.visible line).drop (j * w) := by
   have hj : j < (chunksOf w line).length := by
     apply Classical.byContradiction
     intro hn
@@ -204,8 +275,19 @@ theorem chunksOf_getElem? (w : Nat) (line : Line) (j : Nat) (l : Line)
   simp [chunksOf, hj] at h
   exact h.symm
 
+/-- the rows of printed lines are pieces of visible parts: they contain no ESC byte -/
+theorem qrows_plain (w : Nat) (qs : List Line) : ∀ p ∈ qrows w qs, Plain p := by
+  intro p hp
+  simp only [qrows, List.mem_flatMap] at hp
+  obtain ⟨line, _, hl⟩ := hp
+  obtain ⟨j, hj⟩ := List.getElem?_of_mem hl
+  obtain ⟨_, e⟩ := chunksOf_getElem? w line j p hj
+  rw [e]
+  exact (plain_visible line).drop _
+
 /-- All queued lines, from the start of a row inside the window: the rows from the cursor row on
-show exactly `qrows w qs` — every printed line once, in queue order, wrapped at the width —, the
+show exactly `qrows w qs` — the visible part of every printed line once, in queue order, wrapped
+at the width (the elements of `qrows` are pieces of visible parts: they contain no ESC byte) —, the
 cursor ends at the start of the row after them, the window scrolls by exactly what is needed, no
 other row changes. -/
 theorem queued_spec (w h : Nat) (hw1 : 1 ≤ w) : ∀ (qs : List Line) (b : Buf),
@@ -230,20 +312,20 @@ theorem queued_spec (w h : Nat) (hw1 : 1 ≤ w) : ∀ (qs : List Line) (b : Buf)
   | cons line qs ih =>
     intro b hc hp hwin b' hb'
     rw [List.flatMap_cons, applyBufs_append] at hb'
-    obtain ⟨q1, q2, q3, q4, q5, q6, q7⟩ := queuedLine_spec w h hw1 line.length line b (Nat.le_refl _)
+    obtain ⟨q1, q2, q3, q4, q5, q6, q7⟩ := queuedLine_spec w h hw1 line b
       hc hp hwin _ rfl
     generalize applyBufs w h b (queuedLineOps w line) = b1 at *
-    have hm1 := rowsOf_pos w line.length
+    have hm1 := rowsOf_pos w (lineWidth line)
     have hwin1 : b1.cr < b1.top + h := by rw [q1, q4]; omega
     obtain ⟨s1, s2, s3, s4, s5, s6, s7⟩ := ih b1 q2 q3 hwin1 b' hb'
     have hq : qrows w (line :: qs) = chunksOf w line ++ qrows w qs := by simp [qrows]
-    have hql : (qrows w (line :: qs)).length = rowsOf w line.length + (qrows w qs).length := by
+    have hql : (qrows w (line :: qs)).length = rowsOf w (lineWidth line) + (qrows w qs).length := by
       rw [hq, List.length_append, chunksOf_length]
     rw [hql]
     refine ⟨by rw [s1, q1]; omega, s2, s3, by rw [s4, q1, q4]; omega, ?_, ?_, ?_⟩
     · intro j l hj
       rw [hq] at hj
-      by_cases hjm : j < rowsOf w line.length
+      by_cases hjm : j < rowsOf w (lineWidth line)
       · rw [List.getElem?_append_left (by rw [chunksOf_length]; exact hjm)] at hj
         obtain ⟨_, hl⟩ := chunksOf_getElem? w line j l hj
         subst hl
@@ -251,7 +333,7 @@ theorem queued_spec (w h : Nat) (hw1 : 1 ≤ w) : ∀ (qs : List Line) (b : Buf)
       · rw [List.getElem?_append_right (by rw [chunksOf_length]; omega), chunksOf_length] at hj
         have := s5 _ l hj
         rw [q1] at this
-        have e : b.cr + rowsOf w line.length + (j - rowsOf w line.length) = b.cr + j := by omega
+        have e : b.cr + rowsOf w (lineWidth line) + (j - rowsOf w (lineWidth line)) = b.cr + j := by omega
         rw [e] at this
         exact this
     · intro ρ hρ c
